@@ -21,7 +21,9 @@ MANIFEST = dict(
          "panics (the usize subtractions of assign_all are checked operations), a successful match binds names so that reading the pattern back "
          "(sequence as list with the splat spliced in, operator/struct patterns through their constructor) gives the matched value, sequence "
          "patterns succeed exactly on the right lengths, `or`/`and`/literals behave as stated, switch takes the first matching arm and raises "
-         "otherwise, is_type (type_of v) v and is_type Any v hold for every value, and after every non-raising operation of any history on a "
+         "otherwise (comparison-chain patterns match iff every link holds; n + k and k * n invert on all exact numbers; a sequence pattern "
+         "with trailing defaults denotes the value extended by the defaults that filled in; a modelled conversion T(v) that returns lands in T), "
+         "is_type (type_of v) v and is_type Any v hold for every value, and after every non-raising operation of any history on a "
          "variable declared x : T the stored value satisfies T. The model is tied to /repo on every run by differential runs on generated "
          "pattern x value cases (all pattern constructors, depth <= 3, a 34-value pool incl. struct instances and satisfying types) and on "
          "statement histories, with `x is T` read in-language after each statement.",
